@@ -194,7 +194,7 @@ impl<'a, TId: ArenaId, TValue> Iterator for MappingIter<'a, TId, TValue> {
 
     fn next(&mut self) -> Option<Self::Item> {
         loop {
-            if self.offset >= self.mapping.len {
+            if self.mapping.len == 0 || self.offset > self.mapping.max {
                 return None;
             }
 
